@@ -348,7 +348,14 @@ type RtmpSubscriber struct {
 	// Commands seen (onStatus codes)
 	mu       sync.Mutex
 	Statuses []string
+	// AckEvery > 0: send an Acknowledgement (message type 3, spec 5.4.3) whenever that many more
+	// bytes have been received, as real players do at half the announced window. Set with SetAckEvery.
+	ackEvery int64
+	lastAck  int64
+	AcksSent int64
 }
+
+func (s *RtmpSubscriber) SetAckEvery(n int) { atomic.StoreInt64(&s.ackEvery, int64(n)) }
 
 // StartRtmpSubscriber connects, plays and starts the reader goroutine.
 func StartRtmpSubscriber(addr, app, name string, timeout time.Duration) (*RtmpSubscriber, error) {
@@ -380,6 +387,15 @@ func (s *RtmpSubscriber) loop() {
 		if err != nil {
 			s.Hist.Finish(err)
 			return
+		}
+		if n := atomic.LoadInt64(&s.ackEvery); n > 0 {
+			if got := s.RC.BytesRead(); got-s.lastAck >= n {
+				s.lastAck = got
+				b := []byte{byte(got >> 24), byte(got >> 16), byte(got >> 8), byte(got)}
+				if s.RC.Send(RtmpMsg{Csid: 2, TypeID: 3, StreamID: 0, Payload: b}, 0) == nil {
+					atomic.AddInt64(&s.AcksSent, 1)
+				}
+			}
 		}
 		switch m.TypeID {
 		case 8, 9, 18:
